@@ -458,6 +458,11 @@ class Engine:
                 r = z3.Or(*[val_eq(a, it) for it in b.items]) if b.items else z3.BoolVal(False)
             elif isinstance(b, VDict):
                 r = z3.Select(b.has, a.t)
+            elif isinstance(b, VStr) and isinstance(a, VStr):
+                # substring test: an uninterpreted predicate of (needle, haystack); reflexive
+                f = self.uf("str_contains", [STR, STR], B)
+                self.axioms_once(("str_contains-refl", str(a.t)), f(a.t, a.t))
+                r = f(a.t, b.t)
             else:
                 raise Undecided(f"`in` on {type(b).__name__}", line)
             return r if isinstance(op, ast.In) else z3.Not(r)
